@@ -18,21 +18,21 @@ Print Assumptions C16_rows_exact.
 (* the objective: scaled error variables of the charged edges + lambda * flow out of the source *)
 Theorem C16_objective : forall (I : mef_inst) (a : var -> Q),
   objective a (encode_mef I) ==
-  sumq (fun e => scale_of I e * errof a e) (charged I) + e_lambda I * sumq (xof a) (src_out I).
+  sumq (fun e => scale_of I e * errof a e) (charged I) + mef_lambda I * sumq (xof a) (src_out I).
 Proof. exact mef_objective_sem. Qed.
 Print Assumptions C16_objective.
 
 (* every solution pays at least the scaled L1 distance (+ sparsity term) of its flow ... *)
 Theorem C16_objective_lower_bound : forall (I : mef_inst) (a : var -> Q),
-  (forall e, In e (e_edges I) -> 0 <= scale_of I e) -> sat a (encode_mef I) ->
+  (forall e, In e (mef_edges I) -> 0 <= scale_of I e) -> sat a (encode_mef I) ->
   flow_cost I (xof a) <= objective a (encode_mef I).
 Proof. exact mef_objective_lower_bound. Qed.
 Print Assumptions C16_objective_lower_bound.
 
 (* ... and every flow within the bounds is carried by a solution that pays exactly that *)
 Theorem C16_every_flow_is_a_solution : forall (I : mef_inst),
-  (forall e, In e (e_edges I) -> 0 <= fval I e <= mef_ub I) ->
-  (e_int I = true -> forall e, In e (e_edges I) -> is_int (fval I e)) ->
+  (forall e, In e (mef_edges I) -> 0 <= fval I e <= mef_ub I) ->
+  (mef_int I = true -> forall e, In e (mef_edges I) -> is_int (fval I e)) ->
   forall x, is_flow_ub I x ->
   sat (assign_of I x) (encode_mef I) /\ objective (assign_of I x) (encode_mef I) == flow_cost I x.
 Proof. exact mef_tight_assignment. Qed.
@@ -43,22 +43,22 @@ Print Assumptions C16_every_flow_is_a_solution.
    flow within the bounds, and the reported objective equals the recomputed cost.
    Missing for the full statement: "the bound loses no optimum" (DESIGN mef_bound_no_loss), sampled by E2. *)
 Theorem C16_optimal_solution_is_closest_flow_partial : forall (I : mef_inst),
-  (forall e, In e (e_edges I) -> 0 <= fval I e <= mef_ub I) ->
-  (e_int I = true -> forall e, In e (e_edges I) -> is_int (fval I e)) ->
+  (forall e, In e (mef_edges I) -> 0 <= fval I e <= mef_ub I) ->
+  (mef_int I = true -> forall e, In e (mef_edges I) -> is_int (fval I e)) ->
   forall a : var -> Q,
-  (forall e, In e (e_edges I) -> 0 <= scale_of I e) ->
+  (forall e, In e (mef_edges I) -> 0 <= scale_of I e) ->
   sat a (encode_mef I) -> (forall b, sat b (encode_mef I) -> obj_le (encode_mef I) a b) ->
   is_flow_ub I (xof a) /\
   (forall y, is_flow_ub I y -> flow_cost I (xof a) <= flow_cost I y) /\
-  (0 < e_lambda I \/ e_lambda I == 0 -> (forall e, In e (e_edges I) -> 0 < scale_of I e \/ ignored I e = true) ->
+  (0 < mef_lambda I \/ mef_lambda I == 0 -> (forall e, In e (mef_edges I) -> 0 < scale_of I e \/ ignored I e = true) ->
    objective a (encode_mef I) == flow_cost I (xof a)).
 Proof. exact mef_optimal_is_closest. Qed.
 Print Assumptions C16_optimal_solution_is_closest_flow_partial.
 Definition C16_full_statement : Prop := forall (I : mef_inst) (a : var -> Q),
-  (forall e, In e (e_edges I) -> 0 <= fval I e) -> (forall e, In e (e_edges I) -> 0 <= scale_of I e) ->
+  (forall e, In e (mef_edges I) -> 0 <= fval I e) -> (forall e, In e (mef_edges I) -> 0 <= scale_of I e) ->
   sat a (encode_mef I) -> (forall b, sat b (encode_mef I) -> obj_le (encode_mef I) a b) ->
-  forall y : edge -> Q, (forall e, In e (e_edges I) -> 0 <= y e) ->
-  (forall v, In v (e_nodes I) -> conserved I v = true -> sumq y (in_edges (e_edges I) v) == sumq y (out_edges (e_edges I) v)) ->
+  forall y : edge -> Q, (forall e, In e (mef_edges I) -> 0 <= y e) ->
+  (forall v, In v (mef_nodes I) -> conserved I v = true -> sumq y (mef_in_edges (mef_edges I) v) == sumq y (out_edges (mef_edges I) v)) ->
   flow_cost I (xof a) <= flow_cost I y.
 
 (* the corrected graph has the node list and the edge list it was built from; an edge carries a value iff it had one *)
@@ -77,8 +77,8 @@ Print Assumptions C16_few_values_within_budget.
 
 (* ---- non-vacuity: a -> b (3), b -> c (5): the flow 3,3 (err 0,2) satisfies the model; b is conserved *)
 Definition ex_mef : mef_inst :=
-  {| e_nodes := [0; 1; 2]%N; e_edges := [(0, 1); (1, 2)]%N; e_flow := [((0, 1)%N, 3); ((1, 2)%N, 5)];
-     e_ignore := []; e_scale := []; e_lambda := 0; e_src := None; e_int := true |}.
+  {| mef_nodes := [0; 1; 2]%N; mef_edges := [(0, 1); (1, 2)]%N; mef_flow := [((0, 1)%N, 3); ((1, 2)%N, 5)];
+     mef_ignore := []; mef_scale := []; mef_lambda := 0; mef_src := None; mef_int := true |}.
 Example C16_nonvacuous : sat (assign_of ex_mef (fun _ => 3)) (encode_mef ex_mef) /\
   objective (assign_of ex_mef (fun _ => 3)) (encode_mef ex_mef) == 2 /\ conserved ex_mef 1%N = true /\ mef_ub ex_mef == 10.
 Proof.
